@@ -9,7 +9,10 @@
 //!
 //! The analyses themselves live in the python rule layer (`/verif/vlib`).
 
+mod cfgstrip;
+
 use proc_macro2::{Delimiter, Group, TokenStream, TokenTree};
+use syn::visit_mut::VisitMut;
 use quote::ToTokens;
 use std::collections::BTreeMap;
 use std::fmt::Write as _;
@@ -127,6 +130,29 @@ struct MacroDef {
 struct Ctx {
     macros: BTreeMap<String, MacroDef>,
     depth: usize,
+    config: cfgstrip::Config,
+    recs: Vec<cfgstrip::CfgRec>,
+    cur_file: String,
+    cur_test: bool,
+}
+
+impl Ctx {
+    /// code that only exists after macro expansion is conditionally compiled like any other
+    fn strip_expr(&mut self, e: &mut syn::Expr) {
+        let cfg = self.config.clone();
+        let mut st = cfgstrip::Strip { cfg: &cfg, file: self.cur_file.clone(), recs: &mut self.recs, in_test: self.cur_test };
+        st.visit_expr_mut(e);
+    }
+    fn strip_block(&mut self, b: &mut syn::Block) {
+        let cfg = self.config.clone();
+        let mut st = cfgstrip::Strip { cfg: &cfg, file: self.cur_file.clone(), recs: &mut self.recs, in_test: self.cur_test };
+        st.visit_block_mut(b);
+    }
+    fn strip_file(&mut self, f: &mut syn::File) {
+        let cfg = self.config.clone();
+        let mut st = cfgstrip::Strip { cfg: &cfg, file: self.cur_file.clone(), recs: &mut self.recs, in_test: self.cur_test };
+        st.visit_file_mut(f);
+    }
 }
 
 fn parse_macro_rules(ts: TokenStream) -> MacroDef {
@@ -800,6 +826,13 @@ fn macro_j(m: &syn::Macro, attrs: &[syn::Attribute], cx: &mut Ctx) -> J {
     let l = line(m);
     let full = toks(&m.path);
     let name = m.path.segments.last().map(|x| x.ident.to_string()).unwrap_or_default();
+    if name == "cfg" && m.path.segments.len() == 1 {
+        let mut e: syn::Expr = syn::Expr::Macro(syn::ExprMacro { attrs: vec![], mac: m.clone() });
+        cx.strip_expr(&mut e);
+        if !matches!(e, syn::Expr::Macro(_)) {
+            return expr_j(&e, cx);
+        }
+    }
     let mut v: Vec<(&'static str, J)> = vec![("name", s(&name)), ("path", s(&full)), ("attrs", attrs_j(attrs))];
     // 1. local macro_rules
     if m.path.segments.len() == 1 {
@@ -814,7 +847,8 @@ fn macro_j(m: &syn::Macro, attrs: &[syn::Attribute], cx: &mut Ctx) -> J {
                         let body = substitute(arm.body.clone(), &map);
                         // try expression, then block
                         let parsed: Option<syn::Expr> = syn::parse2::<syn::Expr>(body.clone()).ok();
-                        if let Some(e) = parsed {
+                        if let Some(mut e) = parsed {
+                            cx.strip_expr(&mut e);
                             cx.depth += 1;
                             let ej = expr_j(&e, cx);
                             cx.depth -= 1;
@@ -830,12 +864,14 @@ fn macro_j(m: &syn::Macro, attrs: &[syn::Attribute], cx: &mut Ctx) -> J {
             if cx.depth < 16 {
                 if let Some(body) = expand_general(&def, m.tokens.clone()) {
                     // an expression, or a sequence of statements (exported as a block)
-                    let ej = if let Ok(e) = syn::parse2::<syn::Expr>(body.clone()) {
+                    let ej = if let Ok(mut e) = syn::parse2::<syn::Expr>(body.clone()) {
+                        cx.strip_expr(&mut e);
                         cx.depth += 1;
                         let r = expr_j(&e, cx);
                         cx.depth -= 1;
                         Some(r)
-                    } else if let Ok(b) = syn::parse2::<syn::Block>(TokenTree::Group(Group::new(Delimiter::Brace, body.clone())).into()) {
+                    } else if let Ok(mut b) = syn::parse2::<syn::Block>(TokenTree::Group(Group::new(Delimiter::Brace, body.clone())).into()) {
+                        cx.strip_block(&mut b);
                         cx.depth += 1;
                         let r = block_j(&b, cx);
                         cx.depth -= 1;
@@ -1108,7 +1144,8 @@ fn items_j(items: &[syn::Item], cx: &mut Ctx) -> Vec<J> {
             if name != "macro_rules" && m.mac.path.segments.len() == 1 && cx.depth < 16 {
                 if let Some(def) = cx.macros.get(&name).cloned() {
                     if let Some(body) = expand_general(&def, m.mac.tokens.clone()) {
-                        if let Ok(f) = syn::parse2::<syn::File>(body) {
+                        if let Ok(mut f) = syn::parse2::<syn::File>(body) {
+                            cx.strip_file(&mut f);
                             cx.depth += 1;
                             let sub = items_j(&f.items, cx);
                             cx.depth -= 1;
@@ -1339,9 +1376,14 @@ struct SrcFile {
     test: bool,
 }
 
-fn load(root: &Path, path: &Path, module: Vec<String>, test: bool, out: &mut Vec<SrcFile>) -> Result<(), String> {
+fn load(root: &Path, path: &Path, module: Vec<String>, test: bool, out: &mut Vec<SrcFile>, cfg: &cfgstrip::Config, recs: &mut Vec<cfgstrip::CfgRec>) -> Result<(), String> {
     let text = std::fs::read_to_string(path).map_err(|e| format!("cannot read {}: {e}", path.display()))?;
-    let ast = syn::parse_file(&text).map_err(|e| format!("cannot parse {}: {e}", path.display()))?;
+    let mut ast = syn::parse_file(&text).map_err(|e| format!("cannot parse {}: {e}", path.display()))?;
+    {
+        let rel = path.strip_prefix(root).unwrap_or(path).to_string_lossy().to_string();
+        let mut st = cfgstrip::Strip { cfg, file: rel, recs, in_test: test };
+        st.visit_file_mut(&mut ast);
+    }
     let fname = path.file_name().unwrap().to_string_lossy().to_string();
     let dir = if fname == "lib.rs" || fname == "mod.rs" || fname == "main.rs" {
         path.parent().unwrap().to_path_buf()
@@ -1370,7 +1412,7 @@ fn load(root: &Path, path: &Path, module: Vec<String>, test: bool, out: &mut Vec
     }
     out.push(SrcFile { path: path.strip_prefix(root).unwrap_or(path).to_path_buf(), module, ast, test });
     for (p, mm, t) in children {
-        load(root, &p, mm, t, out)?;
+        load(root, &p, mm, t, out, cfg, recs)?;
     }
     Ok(())
 }
@@ -1402,8 +1444,28 @@ fn collect_macros(items: &[syn::Item], out: &mut BTreeMap<String, MacroDef>, dup
 fn main() {
     let args: Vec<String> = std::env::args().collect();
     let root = PathBuf::from(args.get(1).cloned().unwrap_or_else(|| "/repo".into()));
+    // the configuration the source is read under: `--cfg KEY` / `--cfg KEY="VALUE"` (as `rustc --print cfg` prints them);
+    // without any, the usual 64-bit Linux development build
+    let mut config = cfgstrip::Config::default();
+    let mut i = 2;
+    let mut given = false;
+    while i < args.len() {
+        if args[i] == "--cfg" && i + 1 < args.len() {
+            config.parse_line(&args[i + 1]);
+            given = true;
+            i += 2;
+        } else {
+            i += 1;
+        }
+    }
+    if !given {
+        for l in ["debug_assertions", "panic=\"unwind\"", "target_arch=\"x86_64\"", "target_endian=\"little\"", "target_env=\"gnu\"", "target_family=\"unix\"", "target_os=\"linux\"", "target_pointer_width=\"64\"", "target_vendor=\"unknown\"", "unix"] {
+            config.parse_line(l);
+        }
+    }
+    let mut recs = vec![];
     let mut files = vec![];
-    if let Err(e) = load(&root, &root.join("src/lib.rs"), vec![], false, &mut files) {
+    if let Err(e) = load(&root, &root.join("src/lib.rs"), vec![], false, &mut files, &config, &mut recs) {
         eprintln!("ast-extract: {e}");
         std::process::exit(2);
     }
@@ -1413,7 +1475,8 @@ fn main() {
         let mut ps: Vec<PathBuf> = rd.filter_map(|e| e.ok()).map(|e| e.path()).filter(|p| p.extension().map(|x| x == "rs").unwrap_or(false)).collect();
         ps.sort();
         for p in ps {
-            if let Err(e) = load(&root, &p, vec!["<example>".into()], false, &mut extra) {
+            let mut ex_recs = vec![];
+            if let Err(e) = load(&root, &p, vec!["<example>".into()], false, &mut extra, &config, &mut ex_recs) {
                 eprintln!("ast-extract: {e}");
                 std::process::exit(2);
             }
@@ -1430,9 +1493,11 @@ fn main() {
             m.simple = false;
         }
     }
-    let mut cx = Ctx { macros, depth: 0 };
+    let mut cx = Ctx { macros, depth: 0, config: config.clone(), recs, cur_file: String::new(), cur_test: false };
     let mut fj = vec![];
     for f in files.iter().chain(extra.iter()) {
+        cx.cur_file = f.path.to_string_lossy().to_string();
+        cx.cur_test = f.test;
         let items: Vec<J> = items_j(&f.ast.items, &mut cx);
         fj.push(J::Obj(vec![
             ("path", s(f.path.to_string_lossy())),
@@ -1445,6 +1510,27 @@ fn main() {
     let top = J::Obj(vec![
         ("root", s(root.to_string_lossy())),
         ("files", J::Arr(fj)),
+        ("config", J::Arr(config.set.iter().map(|(k, v)| s(match v { Some(v) => format!("{k}=\"{v}\""), None => k.clone() })).collect())),
+        (
+            "cfg",
+            J::Arr(
+                cx.recs
+                    .iter()
+                    .map(|r| {
+                        J::Obj(vec![
+                            ("pred", s(&r.pred)),
+                            ("value", J::Bool(r.value)),
+                            ("unknown", J::Arr(r.unknown.iter().map(s).collect())),
+                            ("keys", J::Arr(r.keys.iter().map(s).collect())),
+                            ("file", s(&r.file)),
+                            ("l", J::Num(r.line.to_string())),
+                            ("on", s(&r.on)),
+                            ("in_test", J::Bool(r.in_test)),
+                        ])
+                    })
+                    .collect(),
+            ),
+        ),
         ("local_macros", J::Arr(cx.macros.iter().map(|(k, v)| J::Obj(vec![("name", s(k)), ("simple", J::Bool(v.simple)), ("arms", J::Num(v.arms.len().to_string()))])).collect())),
     ]);
     let mut out = String::new();
